@@ -350,7 +350,52 @@ def gen_probes(ctx, drv, flags, quick, fix_ff, fix_nb):
     return probes, tags
 
 
+PROPS = "Properties/Properties_C03_micro.v"
+
+
+def coq_props(ctx):
+    """ctx.coq_properties for the micro-step theorems.  In the thorough tier core re-checks every property file with
+    `coqchk -o -silent`, whose default (-bytecode-compiler no) re-checks the vm_compute sweeps with the lazy conversion: more than
+    an hour for the ten sweep libraries.  The same independent re-check is run here with `-bytecode-compiler yes` (4 min), in
+    the background while the probes run; -> (result of coq_properties, coqchk process or None)"""
+    import subprocess
+    mine = ctx.tier == "thorough" and not os.environ.get("VERIF_NO_COQCHK")
+    if mine:
+        os.environ["VERIF_NO_COQCHK"] = "1"
+    try:
+        pr = ctx.coq_properties(PROPS)
+    finally:
+        if mine:
+            del os.environ["VERIF_NO_COQCHK"]
+    proc = None
+    if mine and pr["ok"]:
+        proc = subprocess.Popen(["timeout", "2400", "coqchk", "-o", "-silent", "-bytecode-compiler", "yes", "-Q", "theories", "QV",
+                                 "QV." + PROPS[:-2].replace("/", ".")], cwd=core.COQ, stdout=subprocess.PIPE, stderr=subprocess.STDOUT,
+                                universal_newlines=True)
+    return pr, proc
+
+
+def coqchk_collect(ctx, proc):
+    if proc is None:
+        return
+    out = proc.communicate()[0]
+    i = out.find("CONTEXT SUMMARY")
+    summ = " ".join(out[i:].split())[:1500] if i >= 0 else out[-800:]
+    ctx.trusted.append("coqchk -o -bytecode-compiler yes QV.%s: rc=%d %s" % (PROPS[:-2].replace("/", "."), proc.returncode, summ[:600]))
+    if proc.returncode != 0:
+        ctx.discharged -= len(re.findall(r'^Theorem ', open(os.path.join(core.COQ, 'theories', PROPS)).read(), re.M))
+        ctx.coq_failed.append(PROPS + " (coqchk)")
+
+
 def run_micro(ctx, quick, verbose=False):
+    pr, chk = coq_props(ctx)
+    try:
+        return _run_micro(ctx, quick, verbose)
+    finally:
+        coqchk_collect(ctx, chk)
+
+
+def _run_micro(ctx, quick, verbose=False):
     drv = ctx.model_driver("c03micro_driver")
     exe = ctx.link("c03_micro", ["c03_micro.c"], exclude=["syncvar.c"])
     fix_ff, fix_nb = source_facts(core.REPO)
